@@ -192,7 +192,7 @@ func c20Config(k int) *pb.ClientConf {
 //	L ok same|DIFF <generation> | L absent | L err <text>      result of the real loader (AssetsSetDir)
 //	T <tid>                                                    ready for commands
 //	B <k> <op>                                                 about to call the API for store k
-//	A <k> ok | A <k> fail <memcheck> <mem> <error text>        the API returned
+//	A <k> ok <mem> | A <k> fail <memcheck> <mem> <error text>        the API returned
 //	Q                                                          quitting on request
 //
 // memcheck (only after a failed SetClientConf): same | DIFF:<what> – whether the in-memory configuration
@@ -408,7 +408,20 @@ func c20ChildStore(as *assets, k int, full, bad bool, override string, say func(
 		err = as.SetPhantomSubnets(subnets)
 	}
 	if err == nil {
-		say("A %d ok", k)
+		// what is in effect in memory after a store that reported success (whole-ClientConf stores only): the supervisor
+		// compares it with what it then finds on disk (a "success" that did not replace the file is a failed replacement)
+		memOK := "na"
+		if snap != nil && !bad {
+			switch now := as.GetClientConfPtr(); {
+			case proto.Equal(now, conf):
+				memOK = "new"
+			case proto.Equal(now, snap):
+				memOK = "old"
+			default:
+				memOK = "other"
+			}
+		}
+		say("A %d ok %s", k, memOK)
 		// after an explicitly chosen partial setter the memory is not c20Config(k): the next numbered store is a whole-ClientConf one
 		return override == "" || op == "SetClientConf"
 	}
